@@ -213,6 +213,84 @@ theorem simple_glyph_roundtrip (g : SimpleGlyph) (bytes : List Nat)
         have := contoursOf_spec g.contours 0 eps [] heps (by omega)
         simpa using this
 
+/-- (on-curve, dx, dy) of every point, deltas taken from the previous point (the first from 0,0) -/
+def deltaList : Int → Int → List Point → List (Bool × Int × Int)
+  | _, _, [] => []
+  | lx, ly, p :: ps => (p.on, p.x - lx, p.y - ly) :: deltaList p.x p.y ps
+
+/-- size of the canonical shortest encoding of a simple glyph: 10 header bytes, one u16 end point per
+contour, instruction length + instructions, the flags (for every delta the smallest of the three
+coordinate forms is chosen, which fixes the flag byte `pointFlag`; then equal flags are run-length
+coded optimally, `optCost`), the coordinate bytes (`coordCost`), padded to an even length. -/
+def canonicalLen (g : SimpleGlyph) : Nat :=
+  let ds := deltaList 0 0 g.contours.flatten
+  let n := 12 + 2 * g.contours.length + g.instructions.length
+    + optCost (ds.map (fun d => pointFlag d.1 d.2.1 d.2.2))
+    + (ds.map (fun d => coordCost d.2.1 + coordCost d.2.2)).sum
+  n + n % 2
+
+/-- **simple_glyph_length_canonical.**  Whenever the writer accepts a simple glyph with contours, the
+number of bytes written is exactly `canonicalLen` — never longer than the canonical shortest encoding
+(`rle_length_optimal` and `coord_bytes_minimal` say that neither the flag run-length coding nor any
+single coordinate could be shorter). -/
+theorem simple_glyph_length_canonical (g : SimpleGlyph) (bytes : List Nat) (hne : g.contours ≠ [])
+    (hw : writeSimple g = some bytes) : bytes.length = canonicalLen g := by
+  have hcanon : ∀ (pts : List Point) (lx ly : Int) (ds : List PointDelta),
+      computePointDeltas lx ly pts = some ds →
+      ds.map (·.flag) = (deltaList lx ly pts).map (fun d => pointFlag d.1 d.2.1 d.2.2) ∧
+      (xBytes ds).length + (yBytes ds).length
+        = ((deltaList lx ly pts).map (fun d => coordCost d.2.1 + coordCost d.2.2)).sum := by
+    intro pts
+    induction pts with
+    | nil => intro lx ly ds h; simp [computePointDeltas] at h; subst h; simp [deltaList, xBytes, yBytes]
+    | cons p ps ih =>
+      intro lx ly ds h
+      simp only [computePointDeltas] at h
+      split at h
+      · cases hrec : computePointDeltas p.x p.y ps with
+        | none => simp [hrec] at h
+        | some rest =>
+          simp only [hrec, Option.map_some, Option.some.injEq] at h
+          subst h
+          have ⟨i1, i2⟩ := ih p.x p.y rest hrec
+          simp only [xBytes, yBytes] at i2
+          simp only [deltaList, List.map_cons, i1, xBytes, yBytes, List.flatMap_cons,
+            List.length_append, List.sum_cons, coord_bytes_written, pointFlag, ← i2, true_and]
+          omega
+      · simp at h
+  unfold writeSimple at hw
+  split at hw
+  · cases hw
+  · have hnz : ¬ (g.contours.length = 0) := by
+      intro e; exact hne (List.eq_nil_of_length_eq_zero e)
+    simp only [hnz, ↓reduceIte] at hw
+    split at hw
+    · cases hw
+    · rename_i eps heps
+      split at hw
+      · cases hw
+      · rename_i ds hds
+        simp only [Option.some.injEq] at hw
+        have hel := (endPts_length g.contours 0 eps heps).1
+        have ⟨c1, c2⟩ := hcanon _ 0 0 ds hds
+        have hfl := computePointDeltas_flags _ 0 0 ds hds
+        have hfb : (flagBytes ds).length = optCost (ds.map (·.flag)) := by
+          rw [flagBytes_length, iterFromFlags_cost _ hfl]
+        have heb := epsBytes_length eps
+        unfold epsBytes at heb
+        rw [← hw]
+        unfold canonicalLen padEven
+        simp only []
+        rw [← c1, ← c2, ← hfb]
+        split
+        · rename_i hev
+          simp only [List.length_append, be16_length, heb, hel] at hev ⊢
+          omega
+        · rename_i hev
+          simp only [List.length_append, be16_length, heb, hel, List.length_cons,
+            List.length_nil] at hev ⊢
+          omega
+
 /-- successive deltas (from the origin) are representable in `i16` -/
 def DeltasRepresentable : Int → Int → List Point → Prop
   | _, _, [] => True
